@@ -124,7 +124,8 @@ def registry_names():
   return list(rng.RngNames())
 
 
-def gen_plan(run_seed, tier="quick", profile="default", names=None):
+def gen_plan(run_seed, tier="quick", profile="default", focus=None,
+             names=None):
   names = names or registry_names()
   r = random.Random(run_seed)
   length = r.randint(40, 160) if tier == "quick" else r.randint(80, 400)
